@@ -249,7 +249,7 @@ Qed.
 
 (* ------------------------------------------------------------------ inverse refuses / accepts *)
 
-Lemma lives_split R1 r1 R2 r2 R3 f1 p1 v1 q1 w1 f2 p2 v2 q2 w2 :
+Lemma lives_split (R1 : list mrow) (r1 : mrow) (R2 : list mrow) (r2 : mrow) (R3 : list mrow) f1 p1 v1 q1 w1 f2 p2 v2 q2 w2 :
   r1 = (f1, p1, v1, q1, Some w1) -> r2 = (f2, p2, v2, q2, Some w2) ->
   lives (R1 ++ r1 :: R2 ++ r2 :: R3) =
   (lives R1 ++ (f1, p1, v1, q1, w1) :: lives R2) ++ (f2, p2, v2, q2, w2) :: lives R3.
